@@ -14,7 +14,7 @@ func init() {
 	register("C17",
 		"Structural necessary conditions of C17 decided from /repo's SSA: (readonly) the only git sub-commands started are rev-list, cat-file, for-each-ref, rev-parse and config --list/--get, and no mutating os/io call exists in the module except the hidden --cpuprofile file; (confinement) the goroutine entry points (go statements and pipeline stage functions) capture only channels, contexts, iterator objects, the ticker/meter of their own package and slices they merely read — never the Graph, the HistorySize, the path resolver or a map — and the parent does not write what a started goroutine reads (one named exception); (determinism) no range over a map, clock, random source or environment read is reachable from the report renderers; (locks) every Lock is released on all non-panic exits and the class-level lock-order graph is acyclic apart from the child→parent record lock. Positive controls in /verif/controls must be reported on every run. Not decided: byte-identical output under every schedule, races inside go-pipe/os/exec/the runtime.",
 		[]string{"encoding/json emits map keys in sorted order", "git's plumbing commands listed are read-only", "class-level lock identities (one per mutex field)"},
-		ruleC17Readonly, ruleC17Confinement, ruleC17Determinism, ruleC17Locks)
+		ruleC17Readonly, ruleC17Confinement, ruleC17FreshBuffers, ruleC17Determinism, ruleC17Locks)
 	register("C18",
 		"Structural necessary conditions of C18 decided from /repo's SSA: (stream) the progress meter is constructed on the stream that main passes os.Stderr for, never on the report stream; (lockset) every field of the meter is immutable after construction, accessed only through sync/atomic, or accessed with the meter's lock in the must-hold set; in the ticker goroutine every write is dominated, within one critical section, by the false edge of the identity test `p.ticker != ticker`, and Done replaces the ticker and writes the final line under the same lock; (bracket) along every path of the scanner Start and Done alternate, every Inc lies between them, a success return leaves no phase open, every phase loop increments exactly once per iteration and the blob phase increments exactly where it registers; Add has no caller. Not decided: ticker timing, equality of the printed number with the census on concrete runs.",
 		[]string{"sync.Mutex and sync/atomic semantics", "time.Ticker delivers ticks only on its own channel"},
@@ -173,8 +173,8 @@ func ruleC17Confinement(c *Ctx) {
 			c.checkParentWrites(g, ge.Fn)
 		}
 	}
-	if n < 8 {
-		c.violate("C17.confinement", "floor", token.NoPos, "", fmt.Sprintf("only %d goroutine entry points found (10 on the reference tree)", n))
+	if n < 5 {
+		c.violate("C17.confinement", "floor", token.NoPos, "", fmt.Sprintf("only %d goroutine entry points found (10 on the reference tree; the feeders, the ticker and the pipeline stages)", n))
 	}
 }
 
@@ -1065,4 +1065,82 @@ func ruleC18Bracket(c *Ctx) {
 
 func ruleC18Bounds(c *Ctx) {
 	c.boundsOfPackage("C18.no-crash", "/meter")
+}
+
+// ruleC17FreshBuffers: a byte slice that a pipeline stage hands to the
+// consumer over a channel must be allocated for that message: a buffer that
+// lives across loop iterations is overwritten by the producer while the
+// consumer still reads it.
+func ruleC17FreshBuffers(c *Ctx) {
+	n := 0
+	for _, ge := range c.goEntries() {
+		if ge.Fn == nil {
+			continue
+		}
+		f := ge.Fn
+		loops := loopsOf(f)
+		allInstrs(f, func(in ssa.Instruction) {
+			var sent []ssa.Value
+			switch x := in.(type) {
+			case *ssa.Send:
+				sent = append(sent, x.X)
+			case *ssa.Select:
+				for _, st := range x.States {
+					if st.Dir == types.SendOnly {
+						sent = append(sent, st.Send)
+					}
+				}
+			}
+			for _, v := range sent {
+				// struct messages: look at their slice-typed fields
+				var slices []ssa.Value
+				v = c.resolve(v)
+				if u, ok := v.(*ssa.UnOp); ok {
+					if al, ok := u.X.(*ssa.Alloc); ok {
+						for _, r := range *al.Referrers() {
+							if fa, ok := r.(*ssa.FieldAddr); ok {
+								if _, isSlice := fieldOfAddr(fa).Var.Type().Underlying().(*types.Slice); isSlice {
+									for _, st := range storesTo(fa) {
+										slices = append(slices, st.Val)
+									}
+								}
+							}
+						}
+					}
+				}
+				if _, isSlice := v.Type().Underlying().(*types.Slice); isSlice {
+					slices = append(slices, v)
+				}
+				for _, sv := range slices {
+					n++
+					l := innermostLoop(loops, in.Block())
+					src := sv
+					for i := 0; i < 6; i++ {
+						if sl, ok := src.(*ssa.Slice); ok {
+							src = sl.X
+							continue
+						}
+						break
+					}
+					src = c.resolve(src)
+					key := fnName(f) + ":" + strings.Fields(in.String())[0]
+					switch x := src.(type) {
+					case *ssa.MakeSlice:
+						if l == nil || l.Blocks[x.Block()] {
+							c.hold("C17.confinement", "fresh-buffer:"+key, in.Pos(), "the bytes sent are allocated in the same loop iteration")
+						} else {
+							c.violate("C17.confinement", "fresh-buffer:"+key, in.Pos(), fnName(f), "the bytes sent to the consumer live in a buffer allocated outside the loop: the producer overwrites them while the consumer still reads the previous message")
+						}
+					case *ssa.Call:
+						c.hold("C17.confinement", "fresh-buffer:"+key, in.Pos(), "the bytes sent are the result of "+calleeQ(&x.Call))
+					default:
+						c.violate("C17.confinement", "fresh-buffer:"+key, in.Pos(), fnName(f), fmt.Sprintf("the bytes sent to the consumer come from a value that outlives the iteration (%T): a reused buffer is overwritten by the producer while the consumer still reads it (data race)", src))
+					}
+				}
+			}
+		})
+	}
+	if n == 0 {
+		c.present("C17.confinement", "fresh-buffer", token.NoPos, "no goroutine sends byte slices to another")
+	}
 }
